@@ -14,11 +14,18 @@ type fleetGen struct {
 	nowIdx uint64
 	tsCtr  uint64
 	started map[string]bool
+	lastTs  map[string]uint64 // native: last timestamp used per instance/key (writes are monotone per key per instance)
+	curID   string
 }
 
 func (f *fleetGen) now() uint64 {
 	f.nowIdx++
 	return symBase + symStep*f.nowIdx
+}
+
+func (f *fleetGen) appOpsFor(id string, first bool) string {
+	f.curID = id
+	return f.appOps(first)
 }
 
 func (f *fleetGen) appOps(first bool) string {
@@ -38,10 +45,22 @@ func (f *fleetGen) appOps(first bool) string {
 			if f.r.Intn(3) != 0 {
 				f.tsCtr++
 			}
+			ts := f.tsCtr
+			if f.lastTs == nil {
+				f.lastTs = map[string]uint64{}
+			}
+			lk := f.curID + "/" + string(k)
+			if last, ok := f.lastTs[lk]; ok && last >= ts {
+				ts = last + 1
+				if ts > f.tsCtr {
+					f.tsCtr = ts
+				}
+			}
+			f.lastTs[lk] = ts
 			if f.r.Intn(4) == 0 {
-				v = mkStored(f.tsCtr, 0, 0, 1, 0, 0, nil)
+				v = mkStored(ts, 0, 0, 1, 0, 0, nil)
 			} else {
-				v = mkStored(f.tsCtr, 0, 0, 0, 0, 0, v)
+				v = mkStored(ts, 0, 0, 0, 0, 0, v)
 			}
 		}
 		ops = append(ops, fmt.Sprintf("p:74:%s:%s", hx(k), hx(v)))
@@ -58,7 +77,7 @@ func genFleetScript(g *Gen, n int, native bool, steps int, withFaults, withResta
 		f.ids = append(f.ids, id)
 		f.lines = append(f.lines, fmt.Sprintf("loop.new %s %s 0 0 0 0 3", id, b2s(native)))
 		if f.r.Intn(3) != 0 {
-			f.lines = append(f.lines, fmt.Sprintf("loop.app %s %s", id, f.appOps(true)))
+			f.lines = append(f.lines, fmt.Sprintf("loop.app %s %s", id, f.appOpsFor(id, true)))
 		}
 	}
 	created := map[string]bool{}
@@ -78,7 +97,7 @@ func genFleetScript(g *Gen, n int, native bool, steps int, withFaults, withResta
 			f.lines = append(f.lines, fmt.Sprintf("loop.go %s ? %d %d", id, fails, f.now()), "prop.loop.check "+id)
 			f.started[id] = true
 		case x < 8:
-			f.lines = append(f.lines, fmt.Sprintf("loop.app %s %s", id, f.appOps(!created[id])), "prop.loop.check "+id)
+			f.lines = append(f.lines, fmt.Sprintf("loop.app %s %s", id, f.appOpsFor(id, !created[id])), "prop.loop.check "+id)
 			created[id] = true
 		case x < 9:
 			if f.started[id] {
